@@ -11,7 +11,7 @@ E2E_NOTE = ("Trusted: rustc/cargo, the installed nightly's rustdoc JSON (stand-i
 
 CHECKS = {
     "C01": dict(engine="e2e", cat="exploration", tech="bounded-exhaustive blueprint enumeration through the real pavexc + rustc",
-                text="Every blueprint of the DI/DIMW/MW/ERR families (all dependency-graph shapes, lifecycles, cloning policies, "
+                text="Every blueprint of the DI/DIMW/MW/ERR/MIX/LT/PROGS families (all dependency-graph shapes, lifecycles, cloning policies, "
                      "middleware words, error plumbing up to the stated bounds) that the real `pavexc generate` accepts is compiled "
                      "by rustc with the emitted manifest; any compile error of an accepted program is a violation.",
                 ref="§4 C01"),
@@ -50,7 +50,8 @@ CHECKS = {
                 ref="§4 C08 (plug-in engines/e2e/fam_plant.py)"),
     "C10": dict(engine="e2e", cat="exploration", tech="exhaustive history enumeration x bounded deterministic hash-seed/thread sweep (getrandom interposer + ASLR off) on the real pavexc",
                 text="All histories of length <=2 (quick) / <=3 (thorough) over {generate P/Q/Q', wipe cache, --check, --check --diagnostics, edit+--check, "
-                     "delete outputs} and a sweep of hash seeds x rayon pool sizes over programs chosen to populate every hash-keyed table: output bytes "
+                     "delete outputs}, perturbation histories (the generated files edited in place between runs: CRLF, final newline, comment, blank "
+                     "line, flipped byte) and a sweep of hash seeds x rayon pool sizes over programs chosen to populate every hash-keyed table: output bytes "
                      "identical across all runs, no file touched by a no-op regenerate, --check exit status exact and side-effect free.",
                 ref="§4 C10 (plug-in engines/e2e/fam_c10.py)",
                 note="The seed dimension is a bounded deterministic sweep (4/32 of 2^128 seeds x 2 pool sizes; rayon interleavings not controlled): "
@@ -82,8 +83,10 @@ CHECKS = {
                                    "clock-independent. No preemption inside SQLite/sqlx. Two recorded findings (known_findings.json)."),
     "C14": dict(engine="rt_body", cat="exploration", tech="bounded-exhaustive enumeration of frame scripts / Pending placements / headers (hook H1) + loopback chunkings",
                 text="Every limit, body length around the limit, frame composition, <=2 Pending placements, Content-Length variant "
-                     "in-process, and every chunking over a real loopback server: never more than N bytes, byte-identical or size-limit error.",
-                ref="§4 C14", note="HTTP/1.1 only on the loopback part; TCP segmentation below write boundaries is not controlled."),
+                     "in-process, every chunking (HTTP/1.1) and every DATA-frame composition (HTTP/2) over a real loopback server: never more than "
+                     "N bytes, byte-identical or size-limit error; and the HISTORY dimension: all ordered pairs of calls on one thread / of requests "
+                     "on one worker (the first completed or abandoned) must leave the second one's verdict unchanged.",
+                ref="§4 C14, §10.4", note="TCP segmentation below write boundaries and hyper's own re-framing are not controlled."),
     "C15": dict(engine="rt_extract", cat="exploration", tech="bounded-exhaustive enumeration of values x encodings x target shapes vs reference decoder",
                 text="All strings up to the bound over a sharp alphabet, every per-character encoding choice, every field/wire "
                      "order, malformed inputs: decoded exactly once, bound by name, or the documented error; never a panic.",
@@ -101,8 +104,10 @@ CHECKS = {
                 text="Every well-typed blueprint-builder call tree up to the bound (incl. overriding calls, nesting depth 2) is built through the "
                      "public API, persisted and read back exactly as pavexc does, and compared field by field (locations included) with the value "
                      "a reference builds from the call list; 470 annotated items covering the legal attribute-argument combinations are documented "
-                     "with rustdoc JSON and parsed by the real attribute parser.",
-                ref="§4 C19", note="Part B uses the installed nightly (rustdoc JSON format 57), cached by a hash of the generated crate + macro/parser sources."),
+                     "with rustdoc JSON and parsed by the real attribute parser. End-to-end half (engines/e2e/fam_c19e.py): every route table of the "
+                     "e2e route family that nests blueprints (prefixes, inherited prefixes, domains, domains in domains) is pushed through the real "
+                     "pavexc and served; a route that is not served where the registered nesting puts it is a violation.",
+                ref="§4 C19, §10.4", note="Part B uses the installed nightly (rustdoc JSON format 57), cached by a hash of the generated crate + macro/parser sources."),
     "C20": dict(engine="rt_domain", cat="exploration", tech="bounded-exhaustive enumeration of guard strings, hosts and guard pairs vs reference validator/matcher (hook H4) through a real matchit router",
                 text="All guard strings up to length 6/9 over the DNS+template alphabet plus length edge cases vs an independent validator; every accepted "
                      "guard x every host of the host universe through a real matchit router with the generated normalisation (recovered from the "
@@ -115,8 +120,9 @@ CHECKS = {
                 ref="§4 C17", note="Independent syn->Type reader and brute-force equivalence reference in the engine."),
     "C18": dict(engine="rt_config", cat="exploration", tech="bounded-exhaustive enumeration of source assignments, one process per case",
                 text="Every assignment of 3 (nested) keys to subsets of {base, profile, env}, profiles, profile sources, "
-                     "directory modes and target structs, each in a fresh process with a controlled environment.",
-                ref="§4 C18", note="A missing profile *file* is tolerated by the loader and not asserted (documented ambiguity)."),
+                     "directory modes and target structs, each in a fresh process with a controlled environment; plus same-process "
+                     "histories (the load under observation preceded by a load of the other profile from the same directory).",
+                ref="§4 C18, §10.4", note="A missing profile *file* is tolerated by the loader and not asserted (documented ambiguity)."),
 }
 
 NOT_YET = {
